@@ -163,6 +163,11 @@ func annotation(r *rand.Rand) string {
 	if r.Intn(2) == 0 {
 		return ""
 	}
+	if r.Intn(4) == 0 {
+		// text that looks like syntax, and text outside ASCII; a no-break space inside a word is a character like any other
+		return []string{"quoted \"word\" here", "(parens) {braces} [brackets]", "back\\slash and /slash/ and a*b", "ünï cödé 日本語 😀",
+			"no\u00a0break inside", "100% sure & more; colon: comma, dot.", "@ref-like @t0 and JSIGHT GET 200", "a 'single' `tick` ~ ^ | < > = + ! ?", "* starred *", "ends with a star *", "/ slash first and last /"}[r.Intn(11)]
+	}
 	return strings.Title(wordList[r.Intn(len(wordList))]) + " " + wordList[r.Intn(len(wordList))] + "."
 }
 
@@ -278,7 +283,7 @@ func Generate(r *rand.Rand, sz Size) *Model {
 		typeItems = append(typeItems, Item{Kind: "type", Type: t})
 	}
 	// path groups
-	segs := []string{"cats", "dogs", "owners", "toys", "v1", "items", "pet_store_items", "x_y", "a__b_", "data-set", "v1.2", "Caps", "~tilde"}
+	segs := []string{"cats", "dogs", "owners", "toys", "v1", "items", "pet_store_items", "x_y", "a__b_", "data-set", "v1.2", "Caps", "~tilde", "caf%C3%A9", "café", "x%5Fy", "a%20b", "50%25"}
 	params := []string{"id", "name", "key"}
 	usedPaths := map[string]bool{}
 	definedPrefix := map[string]bool{} // path prefix up to a parameter that already has a definition
@@ -425,7 +430,7 @@ func Generate(r *rand.Rand, sz Size) *Model {
 					me.Request = rq
 				}
 				for k := 0; k < 1+r.Intn(sz.Responses); k++ {
-					rs := Response{Code: []string{"200", "201", "204", "400", "404", "500", "200"}[r.Intn(7)], Annotation: annotation(r), Body: body(true), BodyAsDirective: r.Intn(3) == 0}
+					rs := Response{Code: []string{"200", "201", "204", "400", "404", "500", "200", "100", "199", "304", "418", "599"}[r.Intn(12)], Annotation: annotation(r), Body: body(true), BodyAsDirective: r.Intn(3) == 0}
 					if r.Intn(5) == 0 {
 						rs.Headers = &S{K: "obj", Props: []Prop{{Key: "X-Res", V: &S{K: "str", Lit: g.word(), Note: g.note()}}}}
 						rs.BodyAsDirective = true
